@@ -1,9 +1,21 @@
-import MV.Lemmas.BitSet
-/-! # C16 (work in progress) -/
-namespace MV.Props.C16
-open MV.Model
+import MV.Props.C16Rank
+import MV.Props.C16Slices
+import MV.Props.C16Maps
+import MV.Props.C16Bits
+import MV.Props.C16Sync
+import MV.Findings.C16
+/-!
+# C16 — leaderboard, slices, ordered and synchronized maps behave like their models
 
-theorem C16_bitset_isSet_set (b : BitSet) (p q : Nat) : (b.set p).isSet q = (decide (q = p) || b.isSet q) :=
-  BitSet.isSet_set b p q
+The theorems live in the files imported above (one per container family, all in the namespace
+`MV.Props.C16`):
 
-end MV.Props.C16
+* `C16Rank`   — `C16_rank_inv`, `C16_rank_refines`, `C16_rank_inverse`, `C16_rank_search_terminates`,
+                `C16_rank_membership`, `C16_rank_update_listed`, `C16_rank_others_unchanged`
+* `C16Slices` — `C16_priority_step`, `C16_priority_sorted`, `C16_priority_keeps_all`,
+                `C16_priority_judge_iff`, `C16_paged_*`
+* `C16Maps`   — `C16_order_refines`, `C16_order_answers`, `C16_order_range_once`,
+                `C16_map_refines_syncmap`, `C16_map_refines_bucket`, `C16_absent_total_*`
+* `C16Bits`   — bit-set laws
+* `C16Sync`   — lock discipline of the synchronized variants (`C16_lock_discipline`)
+-/
